@@ -528,16 +528,13 @@ class List(BlockToken):
         next_marker = None
         matches = []
         while True:
-            anchor = lines.get_pos()
             output, next_marker = ListItem.read(lines, next_marker)
-            item_leader = output[3]
             if leader is None:
-                leader = item_leader
-            elif not cls.same_marker_type(leader, item_leader):
-                lines.set_pos(anchor)
-                break
+                leader = output[3]
             matches.append(output)
-            if next_marker is None:
+            # an item with another type of marker starts a new list.  (its marker is known already:
+            # reading the item first and throwing it away doubled the work at every level of nesting.)
+            if next_marker is None or not cls.same_marker_type(leader, next_marker[2]):
                 break
 
         if matches:
